@@ -287,6 +287,7 @@ MAY_MUTATE_ARGUMENT = {
     ("lists.vertex_list.VertexList.add", "slave_patches"): "sorts the list Mesh._add_vertices builds freshly for this call (checked by C05.SLAVE-ONLY)",
     ("lists.vertex_list.VertexList.find_duplicated", "slave_patches"): "same list as VertexList.add",
     ("modify.reorient.viewpoint.ViewpointReorienter.reorient", "operation"): "re-orienting the given operation in place is the purpose",
+    ("lists.vertex_list.VertexList._reuse", "vertex"): "the vertex is the list's own object; merging the labels of one more corner into it is the purpose (fix 4836d22)",
 }
 
 
